@@ -15,8 +15,7 @@ import (
 	"strings"
 	"unicode"
 
-	"github.com/google/safehtml"
-	"github.com/google/safehtml/template"
+	"verifharness/rxsrc"
 )
 
 var outdir string
@@ -229,15 +228,12 @@ func splitSafeURL(src string) (alt1, alt2, schemeCls string, ok bool, msg string
 }
 
 func genRegex() {
-	all := map[string]string{}
-	for k, v := range safehtml.VerifRegexps() {
-		all[k] = v
-	}
-	for k, v := range template.VerifRegexps() {
-		all[k] = v
-	}
+	// pattern sources are read from the Go source (go/ast), not through variables of the package:
+	// a refactoring that renames or removes a pattern variable leaves the harness buildable and shows
+	// up as "not translated"
+	all := rxsrc.Sources(repoRoot())
 	var names []string
-	for k := range all {
+	for k := range rxsrc.Names {
 		names = append(names, k)
 	}
 	sort.Strings(names)
@@ -246,7 +242,11 @@ func genRegex() {
 	b.WriteString("From V Require Import lib.Base lib.Regex.\nLocal Open Scope N_scope.\n\n")
 	var bad []string
 	for _, n := range names {
-		out, ok, msg := safeRx(all[n])
+		src, present := all[n]
+		out, ok, msg := "Emp", false, "pattern variable not found in the source (or not a constant regexp.MustCompile argument)"
+		if present {
+			out, ok, msg = safeRx(src)
+		}
 		fmt.Fprintf(&b, "(* %s = %s *)\n", n, cmt(all[n]))
 		if !ok {
 			bad = append(bad, n)
